@@ -83,6 +83,13 @@ Unit(
     },
     modifies=["*"],
     ensures=[
+        # a relative import is resolved against the package (directory) of the IMPORTING grammar file:
+        # everything up to the LAST dot of the current namespace, not its top-level package
+        ("relative-import-resolved-against-the-importers-package",
+         f"(final_import_name == old(import_name)) if '.' not in as_str(old({CUR})) else ("
+         f"final_import_name.endswith('.' + old(import_name)) and "
+         f"as_str(old({CUR})).startswith(final_import_name[:len(final_import_name) - len(old(import_name))]) and "
+         f"'.' not in as_str(old({CUR}))[len(final_import_name) - len(old(import_name)):])"),
         # the imported namespace is appended AFTER the previously imported ones (import order)
         ("import-appended-in-import-order",
          f"len(as_list(self._imported_namespaces[old({CUR})])) >= 1 and "
